@@ -78,6 +78,29 @@ def pool_gate(ck, ctx):
                 return False
 
             gates = C.bool_gate_edges(ctx, b, pred)
+            # the gate is not stricter than the bound either: a pool with free capacity (or without a limit) is always tried,
+            # i.e. both disjuncts are tested and from each one's true edge the pop cannot be avoided (a stricter gate would
+            # leave queued steps unstarted for ever)
+            kinds = set()
+            for sbb_, st_, e_ in Q.switches(ctx, b):
+                ee_ = e_
+                while ee_[0] == "un" and ee_[1] == "Not":
+                    ee_ = ee_[2]
+                se_ = strip(ee_)
+                if se_[0] == "bin" and pred(se_):
+                    kinds.add("unlimited" if (se_[1] in ("Eq", "Ne") and ("const", 0) in (se_[2], se_[3])) else "free-slot")
+            cfg_ = ctx.cfg(b)
+            starts_ = [tt for (x, lab) in gates for tt in cfg_.edge_targets(x, lab)]
+            hdr_ = cfg_.enclosing_loop_header(bb)
+            r_ = cfg_.reach_avoid(starts_, avoid_blocks=[bb])
+            # from a gate's true edge the only way not to reach the pop is through the other disjunct's test
+            bypass = (hdr_ in r_ if hdr_ is not None else False) or bool(set(cfg_.returns()) & r_)
+            only_via_tests = True
+            if bypass:
+                gate_blocks = {x for x, _ in gates}
+                r2_ = cfg_.reach_avoid(starts_, avoid_blocks=[bb] + list(gate_blocks))
+                only_via_tests = not ((hdr_ in r2_ if hdr_ is not None else False) or bool(set(cfg_.returns()) & r2_))
+            ck.ob("pool-gate", "%s#%d|not-stricter" % (b.nname, found - 1), kinds == {"unlimited", "free-slot"} and only_via_tests, "a pool without limit (depth == 0) or with a free slot (running < depth) is always popped: both tests present (%s) and nothing else stands between them and the pop" % sorted(kinds), span=t["loc"], fn=b.nname)
             # locals whose rebinding would make the gate stale: the user variable holding the pool ref
             defs = set()
             recv_op = t["args"][0]
@@ -234,6 +257,7 @@ def pools_registered(ck, ctx):
         in_loop = cfg.enclosing_loop_header(bb) is not None
         from_param = any(x[0] == "param" and x[2] == "depths" for x in walk(depth)) or "depths" in src
         ok = in_loop and from_param
+    C.loops_complete(ck, ctx, "pools-registered", [("work::BuildStates::new", "work::PoolState::new", "the declared pools")])
     ck.ob("pools-registered", "declared-pools", ok, "BuildStates::new inserts every (name, depth) of its `depths` argument in a loop: %s" % [show(g[1]) for g in dyn], span=b.loc, fn=b.nname)
     # the loop has no early exit: its header's exit edge is only the iterator's None arm
     # pools flow into the returned BuildStates
@@ -319,6 +343,7 @@ def unknown_pool(ck, ctx):
 
 
 def run(ck, ctx):
+    C.adapter_census(ck, ctx, "pools-registered", ("work::", "task::"))
     pool_gate(ck, ctx)
     counters(ck, ctx)
     j_gate(ck, ctx)
